@@ -70,7 +70,7 @@ def ops():
                         ("i", ["-99999999999999999999"]), ("f", ["1e999"])):
         O.append(("setmulti %s %r" % (path, texts), ["setmulti", 1, H(path), len(texts)] + [H(t) for t in texts],
                   lambda m, path=path, texts=texts: m.setmulti(path, texts)))
-    for sec, title in (("tm", "a"), ("tm", "new"), ("tm", "n2"), ("tu", "t1"), ("tu", "u9"), ("nosuch", "x"), ("i", "77"), ("il", "x")):
+    for sec, title in (("tm", "a"), ("tm", "new"), ("tm", "n2"), ("tu", "t1"), ("tu", "u9"), ("nosuch", "x"), ("i", "77"), ("il", "x"), ("tm", "")):
         O.append(("addtsec %s %s" % (sec, title), ["addtsec", 1, H(sec), H(title)],
                   lambda m, sec=sec, title=title: (m.addtsec(sec, title) is not None)))
     for sec, idx in (("tm", 0), ("tm", 1), ("tm", 2), ("multi", 0), ("multi", 5), ("single", 0), ("i", 0), ("nosuch", 0)):
